@@ -244,6 +244,8 @@ class IrcMsg(object):
                 self.command = self.args.pop(0)
                 if 'time' in self.server_tags:
                     s = self.server_tags['time']
+                    if s is None:
+                        raise ValueError('time tag has no value')
                     date = datetime.datetime.strptime(s, '%Y-%m-%dT%H:%M:%S.%fZ')
                     date = minisix.make_datetime_utc(date)
                     self.time = minisix.datetime__timestamp(date)
